@@ -58,14 +58,13 @@ theorem source_replacement_is_pure_v4 (cfg : IpText.IpCfg) (h4 : cfg.fam6 = fals
       Inv cfg.h cfg.pins cfg.L cfg.B c' ∧ (∀ e ∈ c, e ∈ c') :=
   SrcTie.anonymize_match_spec_v4 cfg h4 undo txt c hI
 
-/-- the same for both families, under the side condition that the parsed value fits the width (for IPv6 this is
-`ipaddress`' own guarantee, exercised by the correspondence, not proved for the model's parser) -/
+/-- **the same for both families, without side condition** (`Proofs/Ipv6Bound.parseV6_lt`: every text the model's IPv6 parser
+accepts is a 128-bit value) -/
 theorem source_replacement_is_pure (cfg : IpText.IpCfg) (undo : Bool) (txt : List Char)
-    (hbound : ∀ n, (if cfg.fam6 then IpText.parseV6 txt else IpText.parseV4 txt) = .ok n → n < 2 ^ cfg.L)
     (c : Cache) (hI : Inv cfg.h cfg.pins cfg.L cfg.B c) :
     ∃ c', Src.anonymize_match cfg.h cfg.fam6 cfg.nets cfg.L cfg.B txt undo c = .ok (IpText.anonMatch cfg undo txt, c') ∧
       Inv cfg.h cfg.pins cfg.L cfg.B c' ∧ (∀ e ∈ c, e ∈ c') :=
-  SrcTie.anonymize_match_spec cfg undo txt hbound c hI
+  SrcTie.anonymize_match_spec_all cfg undo txt c hI
 
 /-- the constructor's memo (source seeding loop) satisfies the invariant, so the two theorems above apply from the start -/
 theorem source_constructor_memo_invariant :
